@@ -158,6 +158,8 @@ pub struct KState {
     error: Option<String>,
     pub hb: Option<HbTracker>,
     chan_log: Vec<ChanEvent>,
+    /// consecutive timer firings without the idle waiters having run (see dispatch)
+    timer_streak: u32,
 }
 
 pub struct Kernel {
@@ -325,6 +327,7 @@ impl Kernel {
                 error: None,
                 hb: if cfg.hb { Some(HbTracker::new()) } else { None },
                 chan_log: Vec::new(),
+                timer_streak: 0,
             }),
             main_cv: Condvar::new(),
         });
@@ -546,7 +549,7 @@ impl Kernel {
             let runnable: Vec<TaskId> =
                 st.tasks.iter().filter(|t| t.info.state == TState::Runnable).map(|t| t.info.id).collect();
             if runnable.is_empty() {
-                // idle waiters first: "everything else is blocked or finished"
+                // idle waiters: "everything else is blocked or finished"
                 let idle: Vec<TaskId> = st
                     .tasks
                     .iter()
@@ -554,13 +557,19 @@ impl Kernel {
                     .map(|t| t.info.id)
                     .collect();
                 if !idle.is_empty() {
-                    // timed waiters other than the idle waiter take precedence: time passes first
-                    if let Some((tid, dl)) = Self::earliest_deadline(st, true) {
-                        st.now = st.now.max(dl);
-                        st.tasks[tid].info.state = TState::Runnable;
-                        st.tasks[tid].timed_out = true;
-                        continue;
+                    // time passes first, but a task that merely polls (wakes up on a timer, finds
+                    // nothing to do, waits again) must not keep the harness from ever seeing an
+                    // idle system: after a few timer firings in a row the idle waiters run
+                    if st.timer_streak < 3 {
+                        if let Some((tid, dl)) = Self::earliest_deadline(st, true) {
+                            st.timer_streak += 1;
+                            st.now = st.now.max(dl);
+                            st.tasks[tid].info.state = TState::Runnable;
+                            st.tasks[tid].timed_out = true;
+                            continue;
+                        }
                     }
+                    st.timer_streak = 0;
                     for i in idle {
                         st.tasks[i].info.state = TState::Runnable;
                         st.tasks[i].timed_out = false;
@@ -568,10 +577,17 @@ impl Kernel {
                     continue;
                 }
                 if let Some((tid, dl)) = Self::earliest_deadline(st, false) {
-                    st.now = st.now.max(dl);
-                    st.tasks[tid].info.state = TState::Runnable;
-                    st.tasks[tid].timed_out = true;
-                    continue;
+                    // once the main task has finished, a system that only keeps polling is quiescent
+                    let main_done = st.tasks.first().map(|t| t.info.state == TState::Finished).unwrap_or(true);
+                    if !(main_done && st.timer_streak >= 64) {
+                        if main_done {
+                            st.timer_streak += 1;
+                        }
+                        st.now = st.now.max(dl);
+                        st.tasks[tid].info.state = TState::Runnable;
+                        st.tasks[tid].timed_out = true;
+                        continue;
+                    }
                 }
                 st.current = None;
                 st.done = true;
